@@ -28,14 +28,25 @@ RULE = (
     'values must have distinct encodings. Non-trivial = the value has a '
     'separator of its own encoding inside a field (dash in app name, dot in '
     'service, colon in why), a wildcard / boundary port, None/empty optional '
-    'field or container, nesting, >=17 indexed sub-objects, a padded id, or '
-    'a modify list with >=2 operation kinds. distinct = canonical JSON. '
+    'field or container, nesting, >=17 indexed sub-objects, a list attribute '
+    'with a repeated value, a padded id, or '
+    'a modify list with >=2 operation kinds. Plain lists of the LDAP objects '
+    '(args, tickets, ..., vring cells, vring rule endpoints, systems) are '
+    'ordered and may repeat a value in the entry-level codecs (no schema has '
+    'uniqueItems); one pair in six there is a list variant: the same object '
+    'but for one value occurring once more / once less / two values swapped '
+    'in one list. distinct = canonical JSON. '
     'codecs are drawn uniformly (counters codec:<name>).')
 ASSUMPTIONS = [
     'a directory server returns what was added: attributes without values do '
     'not exist, values come back as strings (TRUE/FALSE for booleans) or, on '
-    'the direct path, as the native values ldap3 formats them to; values of '
-    'one attribute are a set (generated lists have unique elements)',
+    'the direct path, as the native values ldap3 formats them to; for the '
+    'entry-level codecs (to_entry/from_entry, the pure functions the property '
+    'is observed at) the values of one attribute come back in the order and '
+    'number they were written, so lists with repeated values are in the '
+    'domain; only the modify-list codecs (diff_entries, update) model the '
+    'values of one attribute as a set and are given lists with unique '
+    'elements',
     'modify lists are interpreted with RFC 4511 semantics (delete of an '
     'absent attribute and add of an existing value are errors)',
     'trace node name = <object>,<when>,<host>,<type>,<data> as '
@@ -149,6 +160,27 @@ def fixed_cases():
                 'shared_ip': True, 'args': ['x']},
             'new': {'cpu': '20%', 'endpoints': [{'name': 'b', 'port': 3}],
                     'shared_ip': True, 'args': None, 'memory': '1G'}}),
+        # a command line repeats flags; order and multiplicity are the value
+        ('app-repeated-args', {
+            'codec': 'ldap_app', 'via': 'direct',
+            'a': {'cpu': '10%', 'memory': '1G', 'disk': '1G',
+                  'image': 'docker://repo/img:1.0', 'command': 'server',
+                  'args': ['--env', 'A=1', '--env', 'B=2', '-v', '-v'],
+                  'vring': {'cells': ['c1', 'c2'], 'rules': [
+                      {'pattern': 'proid.db.*',
+                       'endpoints': ['sql', 'admin', 'sql']}]}},
+            'b': {'cpu': '10%', 'memory': '1G', 'disk': '1G',
+                  'image': 'docker://repo/img:1.0', 'command': 'server',
+                  'args': ['--env', 'A=1', 'B=2', '-v'],
+                  'vring': {'cells': ['c1', 'c2'], 'rules': [
+                      {'pattern': 'proid.db.*',
+                       'endpoints': ['sql', 'admin']}]}}}),
+        ('partition-repeated-systems', {
+            'codec': 'ldap_partition', 'via': 'server',
+            'a': {'obj': {'memory': '1G', 'systems': [3032, 17, 3032]},
+                  'partition': 'p1', 'cell': 'c1'},
+            'b': {'obj': {'memory': '1G', 'systems': [3032, 17]},
+                  'partition': 'p1', 'cell': 'c1'}}),
         # REST reservation.update merges the request into the stored record
         # and calls CellAllocation.update: traits [] must clear the traits
         ('update-empty-traits', {
